@@ -295,6 +295,12 @@ fn main() {
                     }
                     None => meta_reply(json!({"ok": false})),
                 },
+                "failwrite" => {
+                    // @failwrite <n>: the next command's response writer breaks after n bytes (client disconnect)
+                    let n: usize = parts.get(1).and_then(|x| x.parse().ok()).unwrap_or(0);
+                    *node.fail_write_after.lock().unwrap_or_else(|e| e.into_inner()) = Some(n);
+                    meta_reply(json!({"ok": true}));
+                }
                 "render" => {
                     node.renderer = parts.get(1).copied().unwrap_or("json").to_string();
                     meta_reply(json!({"ok": true}));
